@@ -34,19 +34,28 @@ fn calculate_diff(
         return None;
     }
 
-    let (a, b, c, d) = (a as Diff, b as Diff, c as Diff, d as Diff);
+    let diff = |x: Count, y: Count| {
+        Diff::try_from(i128::from(y) - i128::from(x)).ok()
+    };
 
-    let Some(diff_1) = b.checked_sub(a) else {
+    let (Some(diff_1), Some(diff_2), Some(diff_3)) =
+        (diff(a, b), diff(b, c), diff(c, d))
+    else {
         return Some(Unknown);
     };
 
-    let Some(diff_2) = c.checked_sub(b) else {
-        return Some(Unknown);
-    };
-
-    if diff_1 == diff_2 && diff_2 == (d - c) {
+    if diff_1 == diff_2 && diff_2 == diff_3 {
         return Some(Got(Plus(diff_1)));
     }
+
+    let (Ok(a), Ok(b), Ok(c), Ok(d)) = (
+        Diff::try_from(a),
+        Diff::try_from(b),
+        Diff::try_from(c),
+        Diff::try_from(d),
+    ) else {
+        return Some(Unknown);
+    };
 
     if a == 0 || b == 0 {
         return Some(Unknown);
